@@ -99,6 +99,16 @@ func scalarBoundaries(fd protoreflect.FieldDescriptor) ([]protoreflect.Value, []
 	return vs, ls
 }
 
+// containerBoundaries is scalarBoundaries without the 20 KiB string/bytes value (lists and maps repeat their
+// elements; the long value is exercised in singular position).
+func containerBoundaries(fd protoreflect.FieldDescriptor) ([]protoreflect.Value, []string) {
+	vs, ls := scalarBoundaries(fd)
+	if fd.Kind() == protoreflect.StringKind || fd.Kind() == protoreflect.BytesKind {
+		return vs[:len(vs)-1], ls[:len(ls)-1]
+	}
+	return vs, ls
+}
+
 func enumClosed(fd protoreflect.FieldDescriptor) bool {
 	return fd.Enum().ParentFile().Syntax() == protoreflect.Proto2
 }
@@ -218,7 +228,7 @@ func (g *Gen) Boundary(md protoreflect.MessageDescriptor) []Case {
 				}
 				continue
 			}
-			vs, _ := scalarBoundaries(fd)
+			vs, _ := containerBoundaries(fd)
 			for _, n := range []int{1, 2, 127, 128} {
 				m := mk()
 				l := m.Mutable(fd).List()
@@ -313,7 +323,7 @@ func (g *Gen) mapVal(mp protoreflect.Map, vfd protoreflect.FieldDescriptor, i in
 		}
 		return v
 	}
-	vs, _ := scalarBoundaries(vfd)
+	vs, _ := containerBoundaries(vfd)
 	return vs[i%len(vs)] // index 0 is the zero / empty value
 }
 
@@ -435,7 +445,12 @@ func (g *Gen) populate(m *dynamicpb.Message, depth, maxFields int) {
 		case fd.IsList():
 			l := m.Mutable(fd).List()
 			cnt := g.R.Intn(5)
-			if g.R.Chance(1, 15) {
+			if fd.Kind() == protoreflect.MessageKind {
+				// keep recursive types from exploding: fewer elements the deeper we are
+				if depth >= 2 {
+					cnt = g.R.Intn(3)
+				}
+			} else if g.R.Chance(1, 15) {
 				cnt = 100 + g.R.Intn(60)
 			}
 			for k := 0; k < cnt; k++ {
@@ -450,7 +465,7 @@ func (g *Gen) populate(m *dynamicpb.Message, depth, maxFields int) {
 				} else if g.R.Bool() {
 					l.Append(g.randomScalar(fd))
 				} else {
-					vs, _ := scalarBoundaries(fd)
+					vs, _ := containerBoundaries(fd)
 					l.Append(vs[g.R.Intn(len(vs))])
 				}
 			}
@@ -466,4 +481,13 @@ func (g *Gen) Random(md protoreflect.MessageDescriptor) Case {
 	m := dynamicpb.NewMessage(md)
 	g.populate(m, 0, 8)
 	return Case{Msg: m, Class: "random"}
+}
+
+// RandomScalarValue returns a random value of a scalar field's kind.
+func (g *Gen) RandomScalarValue(fd protoreflect.FieldDescriptor) protoreflect.Value {
+	if g.R.Chance(1, 3) {
+		vs, _ := scalarBoundaries(fd)
+		return vs[g.R.Intn(len(vs))]
+	}
+	return g.randomScalar(fd)
 }
